@@ -2,7 +2,10 @@
 
 params:
   cases    list of independent cases, each with its own input future and wrapper:
-             {id, kind: 1 f_proxy | 2 f_nocancel,
+             {id, kind: 1 f_proxy | 2 f_nocancel | 3 f_nocancel(f_proxy(f)) | 4 f_proxy(f_proxy(f), timeout),
+              twin: True = the operations of the (single) caller are also applied, in the same order, to ONE plain
+                    copy of the value kept for the whole case (instead of a fresh copy per operation): sequences
+                    of reads and mutations of the same result object,
               state: 1 resolved | 2 failed | 3 pending, resolved by thread comp<id> after D ticks |
                      4 pending for ever | 5 pending, failed by comp<id> after D ticks,
               tmo: timeout in ticks given to f_proxy, or None, D: ticks, val: index into POOL,
@@ -149,6 +152,10 @@ class Box(object):
 
     def fail(self, *a):
         raise Boom("fail")
+
+    def relabel(self, v=None):
+        self.label = v          # rebinds a plain attribute
+        return v
 
     @property
     def size(self):
@@ -359,10 +366,22 @@ def build(p):
                 f.set_result(make(c["valspec"]))
             elif state == 2:
                 f.set_exception(c["exc"])
-            if kind == 1:
-                w = f_proxy(f) if tmo is None else f_proxy(f, timeout=tmo / 1000.0)
-            else:
-                w = f_nocancel(f)
+            try:
+                if kind == 1:
+                    w = f_proxy(f) if tmo is None else f_proxy(f, timeout=tmo / 1000.0)
+                elif kind == 2:
+                    w = f_nocancel(f)
+                elif kind == 3:
+                    w = f_nocancel(f_proxy(f))
+                else:
+                    w = f_proxy(f_proxy(f)) if tmo is None else f_proxy(f_proxy(f), timeout=tmo / 1000.0)
+            except E.SchedAbort:
+                raise
+            except BaseException as ex:     # wrapping a future never raises, whatever state the future is in
+                E.emit("WrapRaise", f=cid, s=type(ex).__name__)
+                cs["callers"], cs["cancels"] = [], []
+                ctx[cid] = c
+                continue
             E.SCHED.track(cid, w)
             role_attr(w, "_condition", "wcond")     # replay steering only: the one blocking primitive of the model
             c["w"] = w
@@ -384,16 +403,21 @@ def build(p):
                 if got[0] == "e" and c["exc"] is not None and got[1] is c["exc"]:
                     code = 3
                 elif value_known and done:
-                    plain = make(c["valspec"])
+                    if cs.get("twin"):
+                        if "twin" not in c:
+                            c["twin"] = make(c["valspec"])
+                        plain = c["twin"]
+                    else:
+                        plain = make(c["valspec"])
                     want = outcome(fn, plain, [make(s) for s in operand_specs])
                     if got[0] == "v" and want[0] == "v":
                         same = norm(got[1]) == norm(want[1])
-                        if opname in MUTATING:
+                        if opname in MUTATING or cs.get("twin"):
                             same = same and norm(f.result()) == norm(plain)
                         code = 1 if same else 0
                     elif got[0] == "e" and want[0] == "e":
                         code = 2 if type(got[1]) is type(want[1]) else 0
-                        if code == 2 and opname in MUTATING and norm(f.result()) != norm(plain):
+                        if code == 2 and (opname in MUTATING or cs.get("twin")) and norm(f.result()) != norm(plain):
                             code = 0
                 # a TimeoutError that is not what the plain value gives: the contract decides from the times
                 # whether the configured timeout really had expired before the owner resolved f
